@@ -18,9 +18,10 @@ theorem saveBlock_order : Facts.c18_saveBlock_order =
     ["saveBlockPart", "calcBlockMetaKey", "calcBlockHashKey", "calcBlockCommitKey", "calcSeenCommitKey", "saveState"] := by
   decide
 
-/-- `finalizeCommit`: block store first, then the state (ApplyBlock), then pruning
-(model: `StoreNode.step`). -/
-theorem finalizeCommit_order : Facts.c18_finalizeCommit_order = ["SaveBlock", "ApplyBlock", "pruneBlocks"] := by
+/-- `finalizeCommit`: validate (panic before anything is written), block store, then the state
+(ApplyBlock), then pruning (model: `StoreNode.phase1` / `step`). -/
+theorem finalizeCommit_order : Facts.c18_finalizeCommit_order =
+    ["ValidateBlock", "SaveBlock", "ApplyBlock", "pruneBlocks"] := by
   decide
 
 /-- the pruning glue prunes the block store before the state store (model: `StoreNode.pruneGlue`) -/
